@@ -358,10 +358,13 @@ contract(
             "all(allocated(glyph_mutator.location_to_master[k]) for k in glyph_mutator.location_to_master)",
             "all(glyph_mutator.masters[k].kind == 0 for k in range(len(glyph_mutator.masters)))",
             "all(glyph_mutator.location_to_master[k].kind == 0 for k in glyph_mutator.location_to_master)",
-            f"implies(not drops({_L}, {_IDX}, glyph_name), len(glyph_mutator.masters) == {_nh(f'len({_L})', 'glyph_name')} and all(implies(has_glyph({_L}, a, glyph_name),"
-            f" 0 <= {_nh('a', 'glyph_name')} and {_nh('a', 'glyph_name')} < len(glyph_mutator.masters)"
-            f" and glyph_mutator.masters[{_nh('a', 'glyph_name')}].data == mathglyph_of(src_data({_L}[a][1][glyph_name]))"
-            f" and items_of(glyph_mutator.model.origLocations[{_nh('a', 'glyph_name')}]) == norm_pairs(items_of({_L}[a][0]), self.axis_bounds)) for a in range(len({_L}))))",
+            f"implies(not drops({_L}, {_IDX}, glyph_name), len(glyph_mutator.masters) == {_nh(f'len({_L})', 'glyph_name')})",
+            f"implies(not drops({_L}, {_IDX}, glyph_name), all(implies(has_glyph({_L}, a, glyph_name),"
+            f" 0 <= {_nh('a', 'glyph_name')} and {_nh('a', 'glyph_name')} < len(glyph_mutator.masters)) for a in range(len({_L}))))",
+            f"implies(not drops({_L}, {_IDX}, glyph_name), all(implies(has_glyph({_L}, a, glyph_name),"
+            f" glyph_mutator.masters[{_nh('a', 'glyph_name')}].data == mathglyph_of(src_data({_L}[a][1][glyph_name]))) for a in range(len({_L}))))",
+            f"implies(not drops({_L}, {_IDX}, glyph_name), all(implies(has_glyph({_L}, a, glyph_name),"
+            f" items_of(glyph_mutator.model.origLocations[{_nh('a', 'glyph_name')}]) == norm_pairs(items_of({_L}[a][0]), self.axis_bounds)) for a in range(len({_L}))))",
             _VOK.format(V="glyph_mutator", n="glyph_name"),
         ],
         # cache hit: the invariant, for the glyph at hand
